@@ -225,6 +225,7 @@ def run_harnesses(scratch, feat, harnesses, jobs=8):
     errs = {e["harness_id"]: e for e in d.get("error_details", [])}
     pdet = {p["harness_id"]: p["property_details"] for p in d.get("property_details", [])}
     cb = {c["harness_id"]: c for c in (d.get("cbmc") or []) if c}
+    should_panic = {m.get("pretty_name"): bool((m.get("attributes") or {}).get("should_panic")) for m in d.get("harness_metadata", [])}
     for h in harnesses:
         r = by_id.get(h.full)
         if r is None:
@@ -244,6 +245,11 @@ def run_harnesses(scratch, feat, harnesses, jobs=8):
             "error": errs.get(h.full, {}),
         }
         st = r.get("status")
+        if should_panic.get(h.full) and st == "Success":
+            # #[kani::should_panic]: Kani reports Success only if a panic was found and nothing but panics failed
+            failed = []
+        elif should_panic.get(h.full) and not failed and (errs.get(h.full) or {}).get("exit_status") not in ("timeout", "out_of_memory"):
+            failed = [{"description": "the panic this contract REQUIRES did not occur", "location": {}, "function": h.full}]
         if st == "Success" and not failed and not uncovered and not undet and ncover > 0:
             res["status"] = "ok"
         elif st == "Success" and ncover == 0:
